@@ -322,8 +322,72 @@ def d3(ck: Check) -> None:
             out[R] = (n, pr)
         return out
 
+    def filtered_reach_sets():
+        """R = {s for every node s if (descendants(dag, s) + {s}) & HOT}  (filled by a loop or written as a comprehension)"""
+        out = {}
+        for n in own_walk(f.node):
+            if not (isinstance(n, ast.Assign) and isinstance(n.targets[0], ast.Name)
+                    and isinstance(n.value, ast.Call) and callee_name(n.value) == "set" and not n.value.args):
+                continue
+            R = n.targets[0].id
+            if R == HOT:
+                continue
+            adds = [c_ for c_ in own_walk(f.node) if isinstance(c_, ast.Call) and isinstance(c_.func, ast.Attribute)
+                    and text(c_.func.value) == R and c_.func.attr == "add" and len(c_.args) == 1]
+            others = [c_ for c_ in own_walk(f.node) if isinstance(c_, ast.Call) and isinstance(c_.func, ast.Attribute)
+                      and text(c_.func.value) == R and c_.func.attr in ("update", "discard", "remove", "clear", "pop")]
+            if len(adds) != 1 or others:
+                continue
+            a_ = adds[0]
+            an = fm.cfgn(a_)
+            lps = [l for l in fm.cfg.enclosing_loops(an) if isinstance(l, ast.For)]
+            if not lps or text(lps[0].iter) != f"{sdp}.node_ids()" or text(lps[0].target) != text(a_.args[0]):
+                continue
+            x = text(lps[0].target)
+            pr = []
+            # the guard: (descendants-or-self of x) & HOT, D a local of this iteration
+            ok_guard = False
+            for t_, pol, b_ in fm.facts(an):
+                if b_.id not in fm.cfg.loop_nodes[lps[0]] or not pol:
+                    continue
+                e = t_
+                while isinstance(e, ast.Call) and callee_name(e) == "bool" and len(e.args) == 1:
+                    e = e.args[0]
+                if isinstance(e, ast.BinOp) and isinstance(e.op, ast.BitAnd):
+                    for l_, r_ in ((e.left, e.right), (e.right, e.left)):
+                        if text(r_) == HOT and isinstance(l_, ast.Name):
+                            tn = fm.cfg.nodes[next(iter(fm.cfg.g.predecessors(b_.id)))]
+                            vds = fm.value_defs(l_.id, tn)
+                            dv = vds[0][1] if len(vds) == 1 else None
+                            inner = dv.args[0] if isinstance(dv, ast.Call) and callee_name(dv) in ("set", "frozenset") and dv.args else dv
+                            self_in = False
+                            if isinstance(inner, ast.BinOp) and isinstance(inner.op, ast.BitOr):
+                                for p_, q_ in ((inner.left, inner.right), (inner.right, inner.left)):
+                                    if isinstance(q_, ast.Set) and len(q_.elts) == 1 and text(q_.elts[0]) == x:
+                                        inner, self_in = p_, True
+                                        inner = inner.args[0] if isinstance(inner, ast.Call) and callee_name(inner) in ("set", "frozenset") and inner.args else inner
+                                        break
+                            if isinstance(inner, ast.Call) and (dotted(inner.func) or "").split(".")[-1] == "descendants" \
+                                    and [text(z) for z in inner.args] == [dag, x]:
+                                self_in = self_in or any(
+                                    isinstance(c2, ast.Call) and isinstance(c2.func, ast.Attribute) and c2.func.attr == "add"
+                                    and text(c2.func.value) == l_.id and c2.args and text(c2.args[0]) == x
+                                    and fm.cfg.dominates(fm.cfgn(c2), tn) for c2 in ast.walk(lps[0]))
+                                if not self_in:
+                                    pr.append("a node is not counted among its own descendants: a forbidden node itself could be an end point")
+                                ok_guard = True
+            if not ok_guard:
+                continue
+            from .c13 import _within as _w3, _tbranch as _tb3
+            hdr_ = fm.cfg.loop_header[lps[0]]
+            if any(isinstance(z, (ast.Break, ast.Return)) for z in ast.walk(lps[0])):
+                pr.append("not every node is examined")
+            out[R] = (n, pr)
+        return out
+
     maps = closure_maps()
     rsets = reach_sets()
+    rsets.update(filtered_reach_sets())
 
     def reach_form(e: ast.AST, x: str, at):
         """is `e` the test "x reaches a forbidden node"?  -> (bool, construction-name)"""
